@@ -232,6 +232,8 @@ def run_null(key):
 
     ns, nt = H.bfs(root, letters, key["depth"], step)
     res["states"], res["trans"] = ns, nt
+    if H.LAST["budget_stop"]:
+        res["notes"]["cases_cut_at_cpu_budget"] = res["notes"].get("cases_cut_at_cpu_budget", 0) + 1
     res["outcomes"] += obs[:20]
     res["obs"] = digest(*obs)
     res["sample"] = {"case": key, "states": ns, "transitions": nt}
